@@ -1,5 +1,5 @@
 --# finding: at -Q0 a `free x;` declaration inside a function leaves a bare (Lex ..) expression statement in the FOAM; the interpreter aborts "Compiler bug...Bug: fintStmt: Char (<f4> in [..]) unimplemented", the C executable runs; from -Q1 the statement is removed
---# key: interp:fintStmt-Char-unimplemented
+--# key: interp:fintStmt-Char
 --# levels: 0
 --# expect-out: "T\n"
 --# expect-status: ok
